@@ -12,6 +12,7 @@ from . import c02, c03
 
 SCRIBBLE = True
 THOROUGH_SCALE = 1
+REVISIT_PER_KIND = 3          # the fault enumeration of one packet is expensive; three packets of every kind come back at the end
 ID = "C04"
 LEVEL = "fault_enumeration"
 SHARDS = {"quick": 1, "thorough": 16}
@@ -206,7 +207,9 @@ def k_trailer_after_setters(ctx, which, seed):
                 t.app_data = r.randbytes(r.randrange(0, 30))
             elif op == "unpack_own":
                 from spacepackets.ecss.tc import PusTc
-                t = PusTc.unpack(bytes(t.pack()))
+                # decoded from a receive buffer that continues after the packet, then forwarded as it is
+                t = PusTc.unpack(bytes(t.pack()) + r.randbytes(r.choice((0, 0, 1, 2, 9))))
+                emit(i, "forward_decoded", t.pack(recalc_crc=False))
             else:
                 emit(i, op, t.to_space_packet().pack())
         emit(len(steps), "final_pack", t.pack())
@@ -235,7 +238,8 @@ def k_trailer_after_setters(ctx, which, seed):
                 t.tm_data = r.randbytes(r.randrange(0, 30))
             elif op == "unpack_own":
                 from spacepackets.ecss.tm import PusTm
-                t = PusTm.unpack(bytes(t.pack()), len(ts))
+                t = PusTm.unpack(bytes(t.pack()) + r.randbytes(r.choice((0, 0, 1, 2, 9))), len(ts))
+                emit(i, "forward_decoded", t.pack(recalc_crc=False))
             else:
                 emit(i, op, t.to_space_packet().pack())
         emit(len(steps), "final_pack", t.pack())
@@ -243,7 +247,7 @@ def k_trailer_after_setters(ctx, which, seed):
         raise AssertionError(which)
     for i, op, p in produced:
         ctx.table("trailer_after_setters/producing_op", f"{which}:{op}")
-        prev = [s_ for s_ in steps[:i] if s_ not in ("pack", "to_space_packet", "calc_crc_pack_cached")]
+        prev = [s_ for s_ in steps[:i] if s_ not in ("pack", "to_space_packet", "calc_crc_pack_cached", "unpack_own")]
         how = op if op != "final_pack" else "pack"
         if not ctx.check("trailer_is_crc", crc16(p[:-2]).to_bytes(2, "big") == p[-2:] and check_pus_crc(p) is True, "packed_trailer_wrong",
                          f"{which}/{how}" + ("/after_changes" if prev else ""), case, steps=steps, at_step=i, observed=p):
